@@ -315,6 +315,12 @@ def c16_case(r, i):
     scope = r.wpick(SCOPES)
     tg.used["scope:%s" % scope] += 1
     call = "const C%d = defineComponent((props: %s) => {});" % (i, ty)
+    # more calls in the same module: the same type again, or another map encoded with the same declarations in scope
+    for j in range(r.wpick([(0, 6), (1, 3), (2, 1)])):
+        tg.used["multi-call"] += 1
+        ty2 = ty if r.chance(0.4) else tg.encode(tg.random_map(), allow_after=False)
+        form = r.wpick([("(props: %s) => {}", 4), ("(props: %s, ctx: SetupContext<{ (e: 'a'): void }>) => {}", 2), ("function (props: %s) {}", 1)])
+        call += "\nconst C%d_%d = defineComponent(%s);" % (i, j, form % ty2)
     return wrap_module(tg, call, scope=scope), tg.used
 
 
@@ -340,6 +346,10 @@ def c17_case(r, i):
     for j in range(n):
         members.append("p%d%s: %s" % (j, "?" if r.chance(0.3) else "", eg.expr()))
     call = "const C%d = defineComponent((props: { %s }) => {});" % (i, "; ".join(members))
+    for j in range(r.wpick([(0, 6), (1, 3), (2, 1)])):
+        tg.used["multi-call"] += 1
+        ms = ["q%d%s: %s" % (k, "?" if r.chance(0.3) else "", r.pick(members).split(": ", 1)[1] if r.chance(0.5) else eg.expr()) for k in range(1 + r.below(3))]
+        call += "\nconst C%d_%d = defineComponent((props: { %s }) => {});" % (i, j, "; ".join(ms))
     return wrap_module(tg, call, imports="import { defineComponent } from 'vue';\nclass Foo {}\n"), tg.used
 
 
@@ -389,6 +399,10 @@ def c18_case(r, i):
         d = "{ " + ", ".join(entries + ["['fo' + 'o']: 1"]) + " }"
     pre = "const foo = 1, bar = 2, baz = 3, qux = 4, v = 5, title = 't', camelCase = 0, x = 1, a = 1, b = 2;\n"
     call = pre + "const C%d = defineComponent((props: %s = %s) => {});" % (i, ty, d)
+    for j in range(r.wpick([(0, 6), (1, 3), (2, 1)])):
+        tg.used["multi-call"] += 1
+        d2 = r.pick([d, "{ " + ", ".join(entries[: 1 + r.below(max(1, len(entries)))]) + " }", "{}", "dflt"])
+        call += "\nconst C%d_%d = defineComponent((props: %s = %s) => {});" % (i, j, ty, d2)
     return wrap_module(tg, call), tg.used
 
 
@@ -439,6 +453,24 @@ def c19_case(r, i):
     ty = enc(evs)
     second = r.wpick([("ctx: SetupContext<%s>" % ty, 6), ("{ emit }: SetupContext<%s>" % ty, 2), ("ctx: { emit: any }", 1), ("ctx", 1)])
     call = "const C%d = defineComponent((props: { a: string }, %s) => {});" % (i, second)
+    # more calls in the same module: the same emits type again, another encoding, or interfaces sharing a base through `extends`;
+    # with and without typed props
+    for j in range(r.wpick([(0, 5), (1, 3), (2, 2)])):
+        tg.used["multi-call"] += 1
+        k2 = r.wpick([("same", 3), ("other", 3), ("shared-base", 3)])
+        if k2 == "same":
+            ty2 = ty
+        elif k2 == "other":
+            ty2 = enc([pool.pop(r.below(len(pool)))] if pool else evs)
+        else:
+            if not getattr(tg, "shared_base", None):
+                tg.shared_base = tg.fresh("SB")
+                tg.decls_before.append("interface %s { (e: 'base-ev'): void; (e: 'update:shared'): void }" % tg.shared_base)
+            nme = tg.fresh("SX")
+            tg.place("interface %s extends %s { (e: 'own%d'): void }" % (nme, tg.shared_base, j))
+            ty2 = nme
+        first = r.wpick([("props: { a: string }", 2), ("_", 2), ("props", 1), ("props: { b?: number } = {}", 1)])
+        call += "\nconst C%d_%d = defineComponent((%s, ctx: SetupContext<%s>) => {});" % (i, j, first, ty2)
     scope = r.wpick(SCOPES)
     tg.used["scope:%s" % scope] += 1
     return wrap_module(tg, call, scope=scope), tg.used
